@@ -3,8 +3,11 @@
 package mercure
 
 import (
+	"encoding/binary"
 	"encoding/json"
 	"net/http"
+
+	bolt "go.etcd.io/bbolt"
 )
 
 // White-box accessors for the verification harness (/verif). This file is NOT part of the
@@ -47,4 +50,23 @@ func VerifAuthorize(h *Hub, r *http.Request, publisher bool) string {
 	b, _ := json.Marshal(c.Mercure.Payload)
 
 	return "ok:" + string(b)
+}
+
+// VerifBoltKeys returns the (sequence, id) of every stored update, in key order.
+func VerifBoltKeys(t *BoltTransport) (seqs []uint64, ids []string) {
+	_ = t.db.View(func(tx *bolt.Tx) error {
+		b := tx.Bucket([]byte(t.bucketName))
+		if b == nil {
+			return nil
+		}
+		c := b.Cursor()
+		for k, _ := c.First(); k != nil; k, _ = c.Next() {
+			seqs = append(seqs, binary.BigEndian.Uint64(k[:8]))
+			ids = append(ids, string(k[8:]))
+		}
+
+		return nil
+	})
+
+	return
 }
